@@ -335,7 +335,9 @@ func opsKey(ms []pmatcher) string {
 // regexes whose anchored and unanchored reading coincide on the value pool, and ones where they differ
 var (
 	safeRegexes   = []string{"a.*|b.*|A.*|1.*", ".+", "ab|ba|zz", "(a|b|ab|ba|abc)", "[^q]+", "a\\.b|abc|1", ".*"}
-	anchorRegexes = []string{"a", "b", "a.", "ab?", "a|b", "a\\.b", "[ab]", "b$", "^a", "A|1", "(?i)a"}
+	anchorRegexes = []string{"a", "b", "a.", "ab?", "a|b", "a\\.b", "[ab]", "b$", "^a", "A|1", "(?i)a",
+		// anchors written by the user inside an alternation bind to the outer branches only
+		"^a|b$", "^ab|zz$", "^zz|a$", "^a$|^b$", "^(a|b)$"}
 )
 
 // ---- chsql.Value -> driver.Value ---------------------------------------------------------------
